@@ -145,7 +145,8 @@ func (m *Model) PullPositions(ctx context.Context, ops ...resource.ReadOption) <
 			positions.Preset, _ = m.presetForValue(positions.States)
 
 			// projection and filtering
-			responseFilter.Filter(positions)
+			// positions.States are the stored messages, so filter a copy instead of stripping their fields in place
+			positions = responseFilter.FilterClone(positions).(*traits.OpenClosePositions)
 			if eq(last, positions) {
 				continue
 			}
